@@ -126,8 +126,11 @@ def check_aggregate(rep_name, other_name, spelling, n, tail=':ref'):
     return refs == want and toks == want and out['name'] == 'C'
 
 
-def _c03_aggregate_symbolic_replicated(s: str) -> bool:
+def _n03_aggregate_symbolic_replicated(s: str) -> bool:
     """
+    (native sweep only -- not a CrossHair condition: one path of compile_component_aggregate over a symbolic REPLICATED name
+    takes more than 90 s and ~900 solver choices, so its reachability twin was never refuted; the symbolic OTHER name is
+    covered by _c03_aggregate_A_replicated_other_symbolic.)
     pre: 1 <= len(s) <= 2 and 33 <= ord(s[0]) <= 126 and 33 <= ord(s[-1]) <= 126 and ':' not in s and '/' not in s and '.' not in s and '%' not in s and ' ' not in s and ',' not in s and '=' not in s and s[-1] not in '0123456789' and s != 'AB'
     post: _
     """
@@ -137,7 +140,7 @@ def _c03_aggregate_symbolic_replicated(s: str) -> bool:
     return check_aggregate(s, 'AB', 'rel', 2)
 
 
-_c03_aggregate_symbolic_replicated_pre = _c03_replica_symbolic_replicated_other_AB_pre
+_n03_aggregate_symbolic_replicated_pre = _c03_replica_symbolic_replicated_other_AB_pre
 
 
 def _c03_aggregate_A_replicated_other_symbolic(s: str) -> bool:
@@ -169,5 +172,5 @@ def sweep(mod):
     yield '_c03_replica_symbolic_replicated_other_AB', s2
     yield '_c03_replica_two_replicated_producers', s2
     yield '_c03_replica_file_path', [(s,) for s in _strings(3, ['a', '.', '/', '-', '*'])]
-    yield '_c03_aggregate_symbolic_replicated', s2
+    yield '_n03_aggregate_symbolic_replicated', s2
     yield '_c03_aggregate_A_replicated_other_symbolic', s2
